@@ -227,8 +227,9 @@ def generate(rng, tier):
         }
         scn["sched"] = obs.gen_sched(rng)
         if path == "obs-par":
-            scn["sched2"] = obs.gen_sched(rng)
-            scn["sched2"]["procs"] = scn["sched"].get("procs", False)
+            # (the process-pool stub only exists for the task-atomic policies)
+            scn["sched2"] = obs.gen_sched(rng, preemptive_ok=not scn["sched"].get("procs"))
+            scn["sched2"]["procs"] = bool(scn["sched"].get("procs"))
     if kind == "failing":
         # raise inside the seeded section, after some draws happened
         tgt = rng.choice(["src", "meas"])
